@@ -12,6 +12,7 @@ import Paroxy.Proofs.FlatHash
 import Paroxy.Proofs.FlatEntries
 import Paroxy.Proofs.FlatTweaks
 import Paroxy.Proofs.FlatAlias
+import Paroxy.Proofs.FlatBackport
 namespace Paroxy.Props.C15
 open Paroxy.Flat
 
@@ -108,13 +109,14 @@ theorem C15_sequence (cfg : Cfg) (s : HashState) (ts : List Val) :
 
 The full statement is `C15_tweaks_full` below (a `def … : Prop`, not proved): every pass of
 `post_process`, applied to the dump of a well-formed tree, is the dump of the tree-level tweak.
-Four of the six passes are proved here (`suppress_kinds`, `suppress_alias_pos`, `suppress_posonlyargs`
-— i.e. the first three of the pipeline, also composed — and the last one, `unquote`), each under
-*local* clauses (`wfKinds`, `wfAlias`, `wfPosonly`, `wfUnquote`: per name / type / scalar line,
-Bool-valued, checked by the harness on every real tree). The two others (`backport_all_constants`,
-`simplify_negative_literals`, whose patterns span several lines and backtrack over the rest of the text)
-and the composition of the six are exercised by the correspondence only (`c15.spec` = dump of `tweak`),
-on every run. -/
+Five of the six passes are proved here (`suppress_kinds`, `suppress_alias_pos`, `suppress_posonlyargs`,
+`backport_all_constants` — i.e. the first four of the pipeline, also composed — and the last one,
+`unquote`), each under *local* clauses (`wfKinds`, `wfAlias`, `wfPosonly`, `wfBackport`, `wfUnquote`: per
+name / type / scalar line, Bool-valued, checked by the harness on every real tree). What is missing for
+`C15_tweaks_full`: the fifth pass `simplify_negative_literals` (two nested lazy searches over the rest of
+the text; same technique as `backport_all_constants`: continuation + "lines lie under their prefix"), the
+composition with it, and the equality of the staged tweaks with the one-shot `tweak`; these are exercised
+by the correspondence only (`c15.spec` = dump of `tweak`), on every run. -/
 
 /-- Full statement (not proved): post-processing the dump = dumping the tweaked tree. -/
 def C15_tweaks_full (WF : Val → Prop) : Prop :=
@@ -169,6 +171,30 @@ theorem C15_tweak_first_three_partial (t0 : Val) (ty : Str) (e : Bool) (r : Str)
   rw [C15_tweak_kinds_partial t0 ty e r ln fs h1, C15_tweak_alias_partial t0 _ h2,
     C15_tweak_posonly_partial t0 _ h3]
 
+/-- **C15 (tweak: backport_all_constants), partial.** On the dump of a tree satisfying `wfBackport`
+(names without `=` and `/`, pairwise distinct among siblings; a `Constant` node is an expression or has a
+line number, its first field is the scalar `value` with a non-empty repr and its other fields are
+scalars; no scalar line ends with `/_type=Constant`), the pass — whose pattern looks for the **last**
+`…/value=` line of the whole rest of the text — is exactly the dump of the tree in which every `Constant`
+is renamed after the text of its value and its `value` field is renamed (`s`, `n`, `value`) or dropped
+(`Ellipsis`). -/
+theorem C15_tweak_backport_partial (t0 t : Val) (hwf : wfBackport [] t = true) :
+    backportAllConstants (dumpP (hashFn t0) [] [] t) = dumpP (hashFn t0) [] [] (backportTree t) := by
+  have := bp_dumpP (hashFn t0) (eq_not_mem_hashFn t0) t [] [] [] (by simp) (by simp) hwf
+    (by intro l hl; cases hl)
+  simpa [backportAllConstants] using this
+
+/-- **C15 (the first four passes composed), partial.** -/
+theorem C15_tweak_first_four_partial (t0 : Val) (ty : Str) (e : Bool) (r : Str) (ln : Option Nat)
+    (fs : List (Str × Val)) (hwf : wfStages4 (.node ty e r ln fs) = true) :
+    backportAllConstants (suppressPosonlyargs (suppressAliasPos (suppressKinds
+        (dumpP (hashFn t0) [] [] (.node ty e r ln fs))))) =
+      dumpP (hashFn t0) [] [] (stage4 (.node ty e r ln fs)) := by
+  simp only [wfStages4, Bool.and_eq_true] at hwf
+  obtain ⟨⟨⟨h1, h2⟩, h3⟩, h4⟩ := hwf
+  rw [C15_tweak_first_three_partial t0 ty e r ln fs h1 h2 h3]
+  exact C15_tweak_backport_partial t0 _ h4
+
 /-- Non-vacuity: `x = u'a'` (exported shape) satisfies the sets of clauses. -/
 def sampleConst : Val :=
   .node cs!"Module" false [] none
@@ -178,8 +204,13 @@ def sampleConst : Val :=
           [(cs!"value", .scalar cs!"'a'" .str), (cs!"kind", .scalar cs!"'u'" .str)])]])]
 
 example : wfUnquote sampleConst = true ∧ wfKinds sampleConst = true ∧ wfPosonly [] sampleConst = true ∧
-    wfAlias [] sampleConst = true := by
+    wfAlias [] sampleConst = true ∧ wfStages4 sampleConst = true := by
   decide
+
+example : dumpP id [] [] (stage4 sampleConst) =
+    [cs!"/_type=Module", cs!"/body/_length=1", cs!"/body/1/_type=Expr", cs!"/body/1/_pos=1:1-",
+     cs!"/body/1/value/_type=Str", cs!"/body/1/value/_hash=Constant(value='a', kind='u')",
+     cs!"/body/1/value/_pos=1:1-0-", cs!"/body/1/value/s='a'"] := by decide
 example : suppressKinds (dumpP id [] [] sampleConst) =
     [cs!"/_type=Module", cs!"/body/_length=1", cs!"/body/1/_type=Expr", cs!"/body/1/_pos=1:1-",
      cs!"/body/1/value/_type=Constant", cs!"/body/1/value/_hash=Constant(value='a', kind='u')",
